@@ -984,6 +984,16 @@ def run_rtl(repo, cube, ctx):
     ev = Eval(d, over, ctx, alias=st.alias)
     for p in d.insts:
         ev.over[(p + '.reset') if p else 'reset'] = BV.const(0, 1)
+    try:
+        return _run_rtl(st, ev, q)
+    except Raised as ex:
+        e = new_eff()
+        e['illegal'] = 'raises'
+        e['notes'].append(f"an update block raises {ex.what}")
+        return finish(e)
+
+
+def _run_rtl(st, ev, q):
     e = new_eff()
     rf = st.rf.path
     if _bit(ev.value(rf + '.wen[0]'), 'register-file write enable'):
@@ -1098,10 +1108,71 @@ def rule_fl(repo):
                           run_fl, FL, 'ProcFL.construct.up_ProcFL', 12)
 
 
+def cl_redirect_tests(repo, r):
+    """the redirect register of ProcCL holds a sentinel or a branch target: every stage must read "a redirect is
+    pending" as `value != sentinel`, for EVERY address (exhaustive over the abstract points sentinel / 0 / small / large)"""
+    d, m, construct, fetch, execute, wb = cl_blocks(repo)
+    sname = construct.args.args[0].arg
+    pc_attr = cl_pc_attr(fetch, sname)
+    cands = {norm(n.value) for n in ast.walk(fetch.func) if isinstance(n, ast.Assign) and len(n.targets) == 1 and
+             norm(n.targets[0]) == pc_attr and isinstance(n.value, ast.Attribute) and norm(n.value.value) == sname}
+    if len(cands) != 1:
+        raise AnalysisError("cannot identify the redirect register of ProcCL (the attribute the fetch block loads the pc from)")
+    red = cands.pop()
+    sentinel = d.top.consts.get('@' + red.split('.', 1)[1])
+    if not isinstance(sentinel, int) or isinstance(sentinel, bool):
+        raise AnalysisError(f"{red} is not initialised to an integer sentinel")
+    points = [('the sentinel', sentinel), ('address 0', BV.const(0, 32)), ('address 4', BV.const(4, 32)),
+              ('address 0xfffffffc', BV.const(0xfffffffc, 32))]
+    n = 0
+    for b in (fetch, execute, wb):
+        fn = 'ProcCL.construct.' + b.func.name
+        for node in ast.walk(b.func):
+            if isinstance(node, ast.Assign) and any(norm(t) == red for t in node.targets) and isinstance(node.value, (ast.Constant, ast.UnaryOp)):
+                v = Interp(repo, m, self_name=None).ev(node.value)
+                n += 1
+                if v != sentinel:
+                    r.bad(m, fn, norm(node), f"{red} is cleared to {v}, but its idle value (sentinel) is {sentinel}: the stages keep "
+                                             f"seeing a pending redirect")
+                else:
+                    r.ok(m, fn, norm(node))
+            if not (isinstance(node, ast.Compare) and any(norm(x) == red for x in [node.left] + node.comparators)):
+                continue
+            n += 1
+            truth = []
+            for what, val in points:
+                class M(Model):
+                    def get(self_, path):
+                        return val if path == red else MISSING
+                v = Interp(repo, m, Ctx(), M(), self_name=sname).ev(node)
+                if isinstance(v, BV):
+                    v = bool(v.value())
+                if not isinstance(v, bool):
+                    raise AnalysisError(f"test `{norm(node)}` on the redirect register is not decidable on the abstract points")
+                truth.append(v)
+            r.evaluations += len(points)
+            want = [val is not sentinel for _, val in points]
+            cons = f"`{norm(node)}` means: a redirect is pending"
+            if truth == want or truth == [not x for x in want]:
+                r.ok(m, fn, cons if truth == want else f"`{norm(node)}` means: no redirect is pending")
+            else:
+                k = next(i for i in range(len(points)) if truth[i] != (want[i] if truth[0] == want[0] else not want[i]))
+                r.bad(m, fn, cons, f"for {points[k][0]} the test is {truth[k]} although the register "
+                                   f"{'holds a branch target' if points[k][1] is not sentinel else 'is idle'} (sentinel {sentinel}): the "
+                                   f"stages disagree on whether a redirect is pending -- a taken branch to that address is never "
+                                   f"fetched and the execute stage waits for ever")
+    if n < 3:
+        raise AnalysisError("ProcCL: fewer than three uses of the redirect register found (fetch test, execute test, clearing)")
+
+
 def rule_cl(repo):
-    return semantics_rule(repo, 'R-C20-cl',
-                          "ProcCL: one instruction flowing through fetch, execute and write-back denotes the ISA semantics",
-                          run_cl, CL, 'ProcCL.construct', 12)
+    r = semantics_rule(repo, 'R-C20-cl',
+                       "ProcCL: one instruction flowing through fetch, execute and write-back denotes the ISA semantics; the "
+                       "redirect register is read as sentinel-or-address consistently by every stage",
+                       run_cl, CL, 'ProcCL.construct', 12)
+    cl_redirect_tests(repo, r)
+    r.require_floor(15)
+    return r
 
 
 def rule_rtl(repo):
@@ -1417,7 +1488,10 @@ def run_decoder(repo, cube, ctx):
     decs = [p for p, i in st.d.insts.items() if i.kind == 'src' and i.cls.name == 'DecodeInstType']
     if len(decs) != 1:
         raise AnalysisError("ProcCtrl no longer instantiates exactly one DecodeInstType")
-    v = ev.value(decs[0] + '.out')
+    try:
+        v = ev.value(decs[0] + '.out')
+    except Raised as ex:
+        return '<raises ' + ex.what + '>'
     if not (isinstance(v, BV) and v.concrete()):
         raise AnalysisError("decoder output is not a constant on the evaluated case")
     return v.value()
@@ -1516,10 +1590,13 @@ def rule_arch(repo):
         idx = BV(instvec(cube).bits[0:5])
         val = Sym(('v',), 32)
         setter = it.getattr(rf, '__setitem__')
-        it.call(setter, [idx, val], {})
-        regs = rf.fields.get('regs')
-        getter = it.getattr(rf, '__getitem__')
-        return idx.value(), [termof(x) for x in regs], termof(it.call(getter, [idx], {}))
+        try:
+            it.call(setter, [idx, val], {})
+            regs = rf.fields.get('regs')
+            getter = it.getattr(rf, '__getitem__')
+            return idx.value(), [termof(x) for x in regs], termof(it.call(getter, [idx], {}))
+        except Raised as e:
+            return idx.lo(), None, e.what
 
     leaves = explore(Cube(~0x1f, 0), run_set)
     r.evaluations += len(leaves)
@@ -1531,7 +1608,9 @@ def rule_arch(repo):
         want = [zero] * 32
         if k != 0:
             want[k] = v
-        if regs != want:
+        if regs is None:
+            problems.append(f"a write to x{k} raises {back}")
+        elif regs != want:
             problems.append(f"a write to x{k} leaves the registers as {[i for i, t in enumerate(regs) if t != zero]} modified")
         elif back != want[k]:
             problems.append(f"reading x{k} after the write does not return the register")
@@ -2290,6 +2369,9 @@ MUTANTS = [
        "s.R[ inst.rs2 ],\n                                      0,\n                                      s.R[ inst.rs1 ] + sext(inst.s_imm, 32) ) )", 'R-C20-cl'),
     _m('cl-wb-load-from-xcel-queue', CL, "s.R[ rd ] = Bits32( s.dmemresp_q.deq().data )", "s.R[ rd ] = Bits32( s.xcelresp_q.deq().data )", 'R-C20-cl'),
     _m('cl-srl-amount-unmasked', CL, "s.R[inst.rs1] >> (s.R[inst.rs2].uint() & 0x1F)", "s.R[inst.rs1] >> s.R[inst.rs2].uint()", 'R-C20-cl'),
+    _m('cl-redirect-test-excludes-address-0', CL, "        if s.redirected_pc_DXM >= 0:\n          s.imem.req", "        if s.redirected_pc_DXM > 0:\n          s.imem.req", 'R-C20-cl'),
+    _m('cl-redirect-cleared-to-zero', CL, "          s.redirected_pc_DXM = -1\n", "          s.redirected_pc_DXM = 0\n", 'R-C20-cl'),
+    _m('cl-execute-redirect-test-off-by-one', CL, "      if s.redirected_pc_DXM >= 0:\n        s.DXM_status", "      if s.redirected_pc_DXM >= 4:\n        s.DXM_status", 'R-C20-cl'),
     _m('cl-mngr2proc-not-dequeued', CL, "s.DXM_W_queue.enq( (inst.rd, s.mngr2proc_q.deq(), DXM_W.arith) )", "s.DXM_W_queue.enq( (inst.rd, s.mngr2proc_q.peek(), DXM_W.arith) )", 'R-C20-cl'),
     _m('cl-store-response-left-in-queue', CL, "              else: # store\n                s.dmemresp_q.deq()", "              else: # store\n                pass", 'R-C20-cl'),
     # --- ProcCtrlRTL ----------------------------------------------------------------------------------------------
@@ -2398,6 +2480,7 @@ EQUIV = [
     _m('top-connection-direction', RTL, "s.ctrl.alu_fn_X        //= s.dpath.alu_fn_X", "s.dpath.alu_fn_X //= s.ctrl.alu_fn_X"),
     _m2('enc-rows-reordered', [(ENC, '  [ "lw     rd, i_imm(rs1)",   0b00000000000000000111000001111111, 0b00000000000000000010000000000011 ], # I-type\n  [ "sw     rs2, s_imm(rs1)",  0b00000000000000000111000001111111, 0b00000000000000000010000000100011 ], # S-type',
                                 '  [ "sw     rs2, s_imm(rs1)",  0b00000000000000000111000001111111, 0b00000000000000000010000000100011 ], # S-type\n  [ "lw     rd, i_imm(rs1)",   0b00000000000000000111000001111111, 0b00000000000000000010000000000011 ], # I-type')]),
+    _m('cl-redirect-test-negated', CL, "        if s.redirected_pc_DXM >= 0:\n          s.imem.req", "        if not (s.redirected_pc_DXM < 0):\n          s.imem.req"),
     _m('cl-x0-guard-redundant', CL, "if rd > 0: s.R[ rd ] = Bits32( data )", "s.R[ rd ] = Bits32( data )"),
     _m('cl-execute-block-renamed', CL, "def DXM():", "def DXM_stage():"),
     _m('cl-bne-as-not-eq', CL, "if s.R[ inst.rs1 ] != s.R[ inst.rs2 ]:", "if not (s.R[ inst.rs2 ] == s.R[ inst.rs1 ]):"),
